@@ -35,6 +35,9 @@ TFields == /\ IsEvent("Fields")
            /\ Ev.has.comment = Ev.set.comment
            /\ UNCHANGED vars /\ Consume
 
-TraceNext == TPos \/ TCourse \/ TFields
+(* a report does not depend on what other goroutines are building at the same time *)
+TConcurrent == IsEvent("Concurrent") /\ Ev.differ = 0 /\ UNCHANGED vars /\ Consume
+
+TraceNext == TPos \/ TCourse \/ TFields \/ TConcurrent
 TraceSpec == TraceInit /\ [][TraceNext]_<<vars, tvars>>
 =============================================================================
